@@ -180,6 +180,31 @@ def run(ctx):
                 lim5 = sorted(cal5 & {"max", "min", "clamp", "floor", "ceil", "round", "abs", "recip"})
                 ctx.require(not lim5, "R-C18-5", "norm|%s" % b5.short.split("::{closure")[0], "the vector is divided by sqrt(sum of squares)", "the divisor of the normalisation passes through %s: a vector whose norm lies on the other side of that bound is returned un-normalised (norm != 1), and the convergence test then compares un-normalised vectors" % lim5, loc_str(st5.span))
     ctx.floor("R-C18-5", "normalising_divisions", n5, 1)
+    # R-C18-7: "the sum of |x - xlast|": the absolute value is taken of EVERY difference, inside what is summed.  Taken of
+    # the sum instead, differences of opposite sign cancel: the test passes as soon as the entry SUM stands still,
+    # however much centrality still moves between the nodes.
+    ctx.rule("R-C18-7", "the convergence measure sums absolute differences: abs is applied to each term, not to the sum")
+    from engines import mapped_closure_of
+
+    fe7 = flows.of(ec5)
+    n7 = 0
+    for t7 in ec5.calls():
+        if not (t7.callee and t7.callee.short.split("::")[-1] in ("sum", "fold") and t7.dest.ty == "f64"):
+            continue
+        cp7 = mapped_closure_of(fe7, t7)
+        if cp7 is None or cp7 not in prog.bodies:
+            continue
+        cb7 = prog.bodies[cp7]
+        cf7 = flows.of(cb7)
+        # the difference closure: subtracts a looked-up previous value
+        subs7 = [s_ for s_ in cb7.stmts() if s_.k == "assign" and s_.rv.k == "binop" and s_.rv.j["op"] == "Sub" and s_.lhs.ty == "f64"]
+        subs7 += [t_ for t_ in cb7.calls() if t_.callee and t_.callee.short.split("::")[-1] == "sub" and "f64" in t_.dest.ty]
+        if not subs7:
+            continue
+        n7 += 1
+        names7 = {cb7.blocks[n_[1]].term.callee.short.split("::")[-1] for n_ in cf7.slice_local([L(0)], data_only=True) if n_[0] == "CALL" and cb7.blocks[n_[1]].term.callee}
+        ctx.require("abs" in names7, "R-C18-7", "abs-per-term|%d" % n7, "each summed term is an absolute difference", "the terms summed by the convergence measure are signed differences (no abs inside the summed closure): positive and negative changes cancel, so the iteration is declared converged while centrality still moves between nodes -- the returned vector is not an approximate fixed point", loc_str(t7.span))
+    ctx.counters["convergence_sums"] = n7
     # ... and the norm is replaced by a constant ONLY when it is zero: a constant definition of an f64 variable that is
     # compared with 0 sits on the `== 0` outcome of that comparison
     from props.c01 import controlling_atoms as _ca5
